@@ -385,7 +385,16 @@ def check(case, ctx):
                 if not ctx.returned(o2, clause="no-exception[whole-number samples given as %s]" % lab, route=name, region="form:integer-typed samples"):
                     continue
                 alt = np.asarray(o2.value)
-                same = alt.shape == base.shape and alt.dtype != object and bool(np.allclose(np.asarray(alt, float), np.asarray(base, float), rtol=0, atol=1e-12, equal_nan=True))
+                same = alt.shape == base.shape and alt.dtype != object
+                if same:
+                    af, bf = np.asarray(alt, float), np.asarray(base, float)
+                    if rep == "quaternion" and af.ndim == 2 and af.shape[1] == 4:      # q and -q are the same attitude (an int array has no -0.0: atan2 branch cuts)
+                        dd_ = np.minimum(np.abs(af - bf).max(axis=1), np.abs(af + bf).max(axis=1))
+                    elif rep == "angles":
+                        dd_ = np.abs((af - bf + np.pi) % (2 * np.pi) - np.pi)
+                    else:
+                        dd_ = np.abs(af - bf)
+                    same = bool(np.all((dd_ <= 1e-12) | (np.isnan(af).any(axis=-1) & np.isnan(bf).any(axis=-1) if af.ndim == 2 and dd_.ndim == 1 else np.isnan(dd_))))
                 ctx.ok("whole-number samples give the same attitudes whether typed as float, int64 or lists", same,
                        {"form": lab, "max_diff": float(np.nanmax(np.abs(np.asarray(alt, float) - np.asarray(base, float)))) if alt.shape == base.shape and alt.dtype != object else None},
                        route=name, region="form:integer-typed samples")
